@@ -81,6 +81,8 @@ def entries(draw):
     for nm in names:
         sp = draw(gen.interface_spec(name=nm, min_params=1, max_params=4, types=c12.TYPES, returns=False,
                                      optional_needs_default=True))
+        if kind == "argparse":
+            sp["choices_form"] = draw(st.sampled_from(("tuple", "tuple", "list", "set")))
         if kind == "mixed":
             # a module mixing plain classes and SQLAlchemy declarative classes (read with --parse infer)
             sp["entry_kind"] = draw(st.sampled_from(("class", "sqlalchemy")))
@@ -314,6 +316,12 @@ def check_output(ent, stp, text, in_text):
                                                         "%s" % (name, spec["name"], got, exp),
                               "sig": {"what": "interface_differs", "emit": emit, "kind": "sqlalchemy_entry", "lossy": None}})
                 continue
+            # the source entry is verbatim what the harness rendered: what cdd reads out of it must be that interface
+            # (I4 compares two reads by cdd's parsers; a source read wrongly would make a wrong symbol 'equal')
+            for fld, pname, wr, rd in c12.read_vs_spec(pk[ent["kind"]], spec, a):
+                v.append({"clause": "I4", "detail": "source entry %s: %s%s was written as %r and is read as %r" % (
+                    spec["name"], fld, " of " + pname if pname else "", wr, rd),
+                    "sig": {"what": "source_misread", "kind": ent["kind"], "field": fld}})
             if not c12.in_domain(a):
                 continue
             d, lossy = c12.compare_iface(a, c12.iface_of(out_ir), pk[emit])
